@@ -48,7 +48,9 @@ def outcome(sim):
         "energies": {k: ev.energy_delivered for k, ev in sim.ev_history.items()},
         "peak": sim.peak,
         "iteration": sim.iteration,
-        "events": [sc.event_key(e) for e in sim.event_history],
+        # ties between events of equal time and type may be processed in either order
+        "events": sorted(sc.event_key(e) for e in sim.event_history),
+        "event_keys": [(e.timestamp, RANK[e.event_type]) for e in sim.event_history],
         "history": hist,
         "queue_empty": sim.event_queue.empty(),
     }
@@ -57,7 +59,7 @@ def outcome(sim):
 def compare(ref, got, what):
     for k in ("pilots", "rates"):
         require(ref[k].shape == got[k].shape and np.array_equal(ref[k], got[k]), "%s_differ_after_resume" % k, lambda: "%s: %s of the resumed run differ from the uninterrupted run\nuninterrupted\n%r\nresumed\n%r" % (what, k, ref[k], got[k]))
-    for k in ("energies", "peak", "iteration", "events", "queue_empty"):
+    for k in ("energies", "peak", "iteration", "events", "event_keys", "queue_empty"):
         require(ref[k] == got[k], "%s_differ_after_resume" % k, lambda: "%s: %s uninterrupted %r, resumed %r" % (what, k, ref[k], got[k]))
     require((ref["history"] is None) == (got["history"] is None), "schedule_history_presence", lambda: "%s: schedule history kept %r vs %r" % (what, ref["history"] is not None, got["history"] is not None))
     if ref["history"] is not None:
@@ -188,7 +190,7 @@ def prop(spec, rec):
             require(s2.iteration == sim.iteration and s2.peak == sim.peak and s2.period == sim.period and s2.start == sim.start, "loaded_scalars", lambda: "%s: iteration/peak/period/start %r vs %r" % (what, (s2.iteration, s2.peak, s2.period, s2.start), (sim.iteration, sim.peak, sim.period, sim.start)))
             require(np.array_equal(s2.pilot_signals, sim.pilot_signals) and np.array_equal(s2.charging_rates, sim.charging_rates), "loaded_matrices", "%s: matrices differ after load" % what)
             require(pending_keys(s2) == pending_keys(sim), "loaded_pending_events", lambda: "%s: pending events %r, original %r" % (what, pending_keys(s2), pending_keys(sim)))
-            require([sc.event_key(e) for e in s2.event_history] == [sc.event_key(e) for e in sim.event_history], "loaded_event_history", "%s: event history differs after load" % what)
+            require([sc.event_key(e) for e in s2.event_history] == [sc.event_key(e) for e in sim.event_history], "loaded_event_history", "%s: event history (already processed events, a list) differs after load" % what)
             require(s2.network.station_ids == sim.network.station_ids, "loaded_station_order", "%s: station order differs after load" % what)
             # shared objects are shared again
             for sid in s2.network.station_ids:
